@@ -17,7 +17,7 @@ ID = "C10"
 LEVEL = "exploration"
 RULE = ("scenario = URL assembled from scheme x host form (name, IPv4, bracketed IPv6) x port (none, 80, 443, other) x "
         "path x query, options host / origin / suppress_origin / subprotocols / cookie / connection (as value and as full line) / header (list; dict incl. None "
-        "values) / connection, 1..3 successive connections.  Expected values are known by construction.  Oracle = "
+        "values) / connection, 1..3 successive connections, the server optionally setting a cookie for the host on each of them (clean, quoted, or carrying CR / NUL / VT / DEL: such a response may be refused, the character must never reach a request).  Expected values are known by construction.  Oracle = "
         "reference HTTP parser on the bytes the peer received before its first reply (one GET, CRLF line ends, one "
         "terminating empty line, nothing after; Host rule; Upgrade, Connection, Version 13; key = base64 of the 16 "
         "bytes drawn at the randomness seam during this connect, fresh per connection; option headers exactly as "
